@@ -94,6 +94,10 @@ def scenarios():
     # a complete session: both sides open, talk, close
     S["open-talk-close"] = {"alice": [("open", "s", "bob", 0, False), ("recv", "s"), ("close", "s")],
                             "bob": [("open", "s", "alice", 0, False), ("send", "s", "b1"), ("close", "s")]}
+    # receives with a zero timeout ("what is there, without waiting"): nothing is lost behind a TimeoutError
+    S["receive-with-zero-timeout"] = {"alice": [("open", "s", "bob", 0, False), ("send", "s", "a1"), ("send", "s", "a2"), ("send", "s", "a3")],
+                                      "bob": [("open", "s", "alice", 0, False), ("recv_t0", "s"), ("pause", 2), ("recv_t0", "s"), ("recv_t0", "s"),
+                                              ("pause", 3), ("recv_nb", "s"), ("recv_t0", "s"), ("recv_nb", "s")]}
     # two complete sessions on the same names, one after the other: every close regular and in time
     # (bob starts his second round only after alice has answered in the first one: her first socket is connected by then, so it
     # is her SECOND socket that has no peer yet when bob's second socket arrives or has come and gone)
@@ -259,12 +263,14 @@ class Endpoint:
                     if isinstance(e, (vs.SchedBound, vs.SchedDeadlock)):
                         raise
                     s.record(("ret", me, "send", sock.remote_app_name, sid, op[2], f"{type(e).__name__}"))
-            elif k in ("recv", "recvs", "recv_nb"):
+            elif k in ("recv", "recvs", "recv_nb", "recv_t0"):
                 s.record(("call", me, k, sock.remote_app_name, sid))
                 t0 = s.sleep_calls.get(me, 0)
                 try:
                     if k == "recv":
                         msg = sock.recv(block=True, timeout=TIMEOUT)
+                    elif k == "recv_t0":
+                        msg = sock.recv(block=True, timeout=0.0)      # "give me what is there, do not wait"
                     elif k == "recvs":
                         m = sock.recv_structured(block=True, timeout=TIMEOUT)
                         msg = m.payload if hasattr(m, "payload") else _payload_of(m)
@@ -417,6 +423,7 @@ def judge(script, s: vs.Scheduler):
         if ev[0] == "call" and ev[2] == "close":
             closed_at.setdefault(ev[1], i)
     nb_violation = None
+    owed = {}
     for i, ev in enumerate(log):
         if ev[0] == "ret" and ev[2] == "send":
             _, me, _, remote, sid, mid, res = ev
@@ -427,14 +434,22 @@ def judge(script, s: vs.Scheduler):
                 pass
             else:
                 return f"send of {mid} by {me} raised {res}"
-        elif ev[0] == "ret" and ev[2] in ("recv", "recvs", "recv_nb"):
+        elif ev[0] == "call" and ev[2] in ("recv_nb", "recv_t0"):
+            _, me, kind, remote, sid = ev
+            owed[me] = len(sends.get((remote, me, sid), [])) - len([g for g in recvs.get((me, remote, sid), []) if not (isinstance(g, str) and g.startswith("!"))])
+        elif ev[0] == "ret" and ev[2] in ("recv", "recvs", "recv_nb", "recv_t0"):
             _, me, kind, remote, sid, msg, dt = ev
             if isinstance(msg, str) and msg.startswith("!"):
-                if kind == "recv_nb":
-                    if msg != "!RuntimeError":
-                        return f"non-blocking receive of {me} raised {msg[1:]} instead of reporting emptiness"
-                    if dt > 0:
+                if kind in ("recv_nb", "recv_t0"):
+                    empty = "!RuntimeError" if kind == "recv_nb" else "!TimeoutError"
+                    if msg != empty:
+                        return f"{'non-blocking' if kind == 'recv_nb' else 'zero-timeout'} receive of {me} raised {msg[1:]} instead of reporting emptiness"
+                    if dt > 0 and kind == "recv_nb":
                         return f"non-blocking receive of {me} slept {dt} time(s) instead of returning at once"
+                    if owed.get(me, 0) > 0 and me not in {op[2] for ops in script.values() for op in ops if op[0] == "use"} \
+                            and me not in cb_keys:
+                        return (f"{'non-blocking' if kind == 'recv_nb' else 'zero-timeout'} receive of {me} reported an empty channel although "
+                                f"{owed[me]} message(s) from {remote} had been completely sent before it started and were not yet received")
                     continue
                 recvs.setdefault((me, remote, sid), []).append(msg)
             else:
